@@ -562,20 +562,22 @@ func (e *c35vEnv) check(si interface{}, hist []string) (string, string) {
 	return "", ""
 }
 
-func TestVerif_C35_validheight(t *testing.T) { c35vRun(t, "validheight", "vh.", false) }
-
-// Unit "restart": the same search from a second initial state, in which the
-// validator window (and the chain) already holds a block with the sender's
-// nonce-0 transaction, over the sender's NEXT nonces and one level deeper: the
-// histories "the validator is reset after it has seen the sender (consensus
-// stop/restart, or validHeight finding the window out of step), is refilled by
-// at least two further blocks of which one carries the sender's next nonce
-// (sealed elsewhere while a competing transaction sits in this node's pool),
-// and a proposal is built" all lie within the depth.
-func TestVerif_C35_restart(t *testing.T) { c35vRun(t, "restart", "rs.", true) }
-
-func c35vRun(t *testing.T, unit, pfx string, rootA0 bool) {
-	r := vh.Start(t, "C35", unit)
+// The unit runs two searches with the same events and the same oracle:
+//
+//	"vh."  from a steady node whose 2-block validator window is empty of
+//	       transactions, over the sender's nonces 0.. ;
+//	"rs."  (validator restart) from a steady node whose last block - on chain, in
+//	       the window, delivered to the pool - carried the sender's nonce-0
+//	       transaction, over the sender's NEXT nonces and one level deeper.  The
+//	       histories "the validator is reset AFTER it has seen the sender
+//	       (consensus stop/restart, or validHeight finding the window out of
+//	       step), is refilled by two or more further blocks of which one carries
+//	       the sender's next nonce (sealed elsewhere while a competing
+//	       transaction sits in this node's pool), and a proposal is built" all
+//	       lie within that depth: the validator must behave after a reset as it
+//	       does on first use.
+func TestVerif_C35_validheight(t *testing.T) {
+	r := vh.Start(t, "C35", "validheight")
 	defer r.Finish()
 	_ = log.Log().SetDebugLevel(log.FatalLog)
 	saveLedger, saveCfg := ledger.DefLedger, *config.DefConfig
@@ -587,48 +589,69 @@ func c35vRun(t *testing.T, unit, pfx string, rootA0 bool) {
 	config.DefConfig.Common.GasPrice = 0
 	config.DefConfig.Consensus.MaxTxInBlock = 60000
 
-	e := &c35vEnv{r: r, pfx: pfx, rootA0: rootA0}
-	e.buildAlphabet(r.Thorough())
-	e.stateless = stateless.NewValidatorPool(2)
-	e.stateful = stateful.NewValidatorPool(1)
+	sl, sf := stateless.NewValidatorPool(2), stateful.NewValidatorPool(1)
 	ov := overlaydb.NewOverlayDB(leveldbstore.NewMemLevelDBStore())
 	c35vCache = storage.NewCacheDB(ov)
-	c35vCache.Put(ont.GenBalanceKey(nutils.OngContractAddress, e.sender), cstates.NativeTokenBalanceFromInteger(1000000000).MustToStorageItemBytes())
-
-	depth := r.Pick(6, 7)
-	root := fmt.Sprintf("steady node at height %d with a 2-block validator window", c35vH0)
-	if rootA0 {
-		depth = r.Pick(7, 8)
-		root = fmt.Sprintf("steady node at height %d with a 2-block validator window whose last block (on chain, delivered to pool and validator) carried the sender's nonce-0 transaction: account nonce 1; alphabet = nonces 1.. of that sender (competing same-nonce transactions) and a native tx", c35vH0)
-		r.Rule("unit restart: the search of unit validheight (same events, same oracle, validator reset enabled in every state) from an initial state in which the validator window has already seen the sender, one level deeper, so that every history reset -> two or more further blocks delivered to the validator (one carrying the sender's next nonce, sealed elsewhere or own proposal) -> submission -> proposal is covered")
-	} else {
-		r.Rule("breadth-first search over histories of: submit any of the pre-signed transactions (one EIP-155 sender: nonces 0.. and a competing higher-priced nonce-0 transaction; native txs) through the real handleTransaction/validators/handleRsp; build a proposal with the height the REAL vbft Server.validHeight returns (real getTxPool + IncrementValidator.Verify as makeProposal does); seal+persist a block (the own proposal, a single transaction proposed elsewhere, or empty) = the ledger advances and one persisted-event is queued for the pool and one for the consensus-side validator; deliver the oldest queued event to the pool (with and without re-verification of the remaining pool) or to the validator, in any order relative to each other, to submissions and to proposals; reset of the validator. State = ledger model + complete pool + validator window + both event queues; every proposal is checked against the ledger for duplicate hash / tx already on chain / consecutive nonces from the account nonce")
+	type search struct {
+		e     *c35vEnv
+		depth int
+		root  string
 	}
-	r.Bound(fmt.Sprintf("unit %s: %d transactions in the alphabet, initial state = %s, each event queue <= %d blocks, depth<=%d", unit, len(e.txs), root, c35vMaxLag, depth))
+	var searches []*search
+	for _, rootA0 := range []bool{false, true} {
+		e := &c35vEnv{r: r, pfx: "vh.", rootA0: rootA0, stateless: sl, stateful: sf}
+		sr := &search{e: e, depth: r.Pick(6, 7), root: "2-block validator window without transactions, account nonce 0"}
+		if rootA0 {
+			e.pfx = "rs."
+			sr.depth = r.Pick(7, 8)
+			sr.root = "2-block validator window whose last block (on chain, delivered to pool and validator) carried the sender's nonce-0 transaction, account nonce 1"
+		}
+		e.buildAlphabet(r.Thorough())
+		c35vCache.Put(ont.GenBalanceKey(nutils.OngContractAddress, e.sender), cstates.NativeTokenBalanceFromInteger(1000000000).MustToStorageItemBytes())
+		searches = append(searches, sr)
+	}
+
+	r.Rule("breadth-first search over histories of: submit any of the pre-signed transactions (one EIP-155 sender: consecutive nonces and competing higher-priced same-nonce transactions; native txs) through the real handleTransaction/validators/handleRsp; build a proposal with the height the REAL vbft Server.validHeight returns (real getTxPool + IncrementValidator.Verify as makeProposal does); seal+persist a block (the own proposal, a single transaction proposed elsewhere, or empty) = the ledger advances and one persisted-event is queued for the pool and one for the consensus-side validator; deliver the oldest queued event to the pool (with and without re-verification of the remaining pool) or to the validator, in any order relative to each other, to submissions and to proposals; reset of the validator (enabled in every state). Two searches: 'vh.' from a node that has not seen the sender yet, 'rs.' from a node whose validator window and chain already hold the sender's nonce-0 transaction (so that reset-after-use, refill by >=2 blocks and a proposal fit into the depth). State = ledger model + complete pool + validator window + both event queues; every proposal is checked against the ledger for duplicate hash / tx already on chain / consecutive nonces from the account nonce")
+	var bounds []string
+	for _, sr := range searches {
+		bounds = append(bounds, fmt.Sprintf("search %s %d transactions in the alphabet, initial state = steady node at height %d, %s, depth<=%d", sr.e.pfx, len(sr.e.txs), c35vH0, sr.root, sr.depth))
+	}
+	r.Bound(fmt.Sprintf("unit validheight: %s; each event queue <= %d blocks", strings.Join(bounds, "; "), c35vMaxLag))
 	r.Assume("validator verdicts are delivered before the next event; 'on chain' = sealed and persisted (the ledger answers for every sealed block); balances always suffice; pre-execution on re-verification passes")
-	cfg := xs.Config{Init: e.init, Events: e.events, Apply: e.apply, Key: e.keyRec, Check: e.check, MaxDepth: depth,
-		MaxStates: r.Pick(400000, 2000000), ShardFirst: true}
+	mkcfg := func(sr *search) xs.Config {
+		e := sr.e
+		return xs.Config{Init: e.init, Events: e.events, Apply: e.apply, Key: e.keyRec, Check: e.check, MaxDepth: sr.depth,
+			MaxStates: r.Pick(400000, 2000000), ShardFirst: true}
+	}
 	var rc struct {
 		History []string `json:"history"`
 	}
 	if r.ReplayCase(&rc) {
 		r.State(1)
-		for _, ev := range rc.History {
-			if !e.known(ev) {
-				return // a case recorded by another unit of this property
+		for _, sr := range searches {
+			mine := len(rc.History) > 0
+			for _, ev := range rc.History {
+				mine = mine && sr.e.known(ev)
 			}
+			if !mine {
+				continue // a case recorded by the other search or by another unit of this property
+			}
+			cfg := mkcfg(sr)
+			cfg.Key = sr.e.key
+			if k, d := xs.Replay(cfg, rc.History); k != "" {
+				r.Violation(k, d, map[string]interface{}{"history": rc.History})
+			}
+			r.Trans(int64(len(rc.History)))
 		}
-		cfg.Key = e.key
-		if k, d := xs.Replay(cfg, rc.History); k != "" {
-			r.Violation(k, d, map[string]interface{}{"history": rc.History})
-		}
-		r.Trans(int64(len(rc.History)))
 		return
 	}
-	stt := xs.Run(r, cfg)
-	r.State(-stt.States)
+	for _, sr := range searches {
+		stt := xs.Run(r, mkcfg(sr))
+		r.State(-stt.States)
+		r.Set(sr.e.pfx+"per_depth_new_states", stt.PerDepth)
+		r.Class(fmt.Sprintf(sr.e.pfx+"longest-proposal=%d", sr.e.maxProp))
+	}
 	if r.R.NViolations >= 20 {
 		r.Capped("exploration stopped after 20 violations")
 	}
-	r.Class(fmt.Sprintf(e.pfx+"longest-proposal=%d", e.maxProp))
 }
